@@ -553,7 +553,7 @@ fn no_element_no_call(rep: &mut Report, next_id: &mut u64) {
     *next_id += 1;
     let id = *next_id;
     rt.register_function("r1", Box::new(recorder(id, true)));
-    let doc = json!({"none": [], "xs": [1, 20, 3]});
+    let doc = json!({"none": [], "xs": [1, 20, 3], "one": [{"n": 5}], "rows": [{"id": "a", "vals": [1, 2, 3]}, {"id": "b", "vals": []}]});
     // two references in one search whose bodies call different functions with names of equal length, and an
     // unregistered call whose argument calls a registered function (arguments first, then the failure)
     {
@@ -577,6 +577,25 @@ fn no_element_no_call(rep: &mut Report, next_id: &mut u64) {
             ("{v: nosuch(aa(xs)), \"v\": xs}", vec![ia], Some("unknown-function")),
             ("{v: xs, \"v\": nosuch(bb(xs))}", vec![ib], Some("unknown-function")),
             ("[aa(xs), aa(xs)] | [bb(@), bb(@)]", vec![ia, ia, ib, ib], None),
+            // where only the truth of a projection matters (under `!`, as a filter predicate, as an operand of && / ||)
+            // its right-hand side is still called for EVERY element
+            ("!xs[*].aa(@)", vec![ia, ia, ia], None),
+            ("!(xs[*].aa(@))", vec![ia, ia, ia], None),
+            ("rows[?vals[*].aa(@)].id", vec![ia, ia, ia], None),
+            ("rows[?!vals[*].aa(@)].id", vec![ia, ia, ia], None),
+            ("xs[*].aa(@) && `1`", vec![ia, ia, ia], None),
+            ("xs[*].aa(@) || `1`", vec![ia, ia, ia], None),
+            ("xs[?@ > `0`].aa(@) | !@", vec![ia, ia, ia], None),
+            ("rows[?vals[*].nosuch(@)].id", vec![], Some("unknown-function")),
+            ("!xs[*].nosuch(aa(@))", vec![ia], Some("unknown-function")),
+            // a by-function over ONE element still evaluates its key for that element
+            ("sort_by(one, &aa(n))", vec![ia], None),
+            ("max_by(one, &aa(n))", vec![ia], None),
+            ("min_by(one, &bb(n))", vec![ib], None),
+            ("map(&aa(n), one)", vec![ia], None),
+            ("sort_by(one, &nosuch(n))", vec![], Some("unknown-function")),
+            ("max_by(one, &nosuch(aa(n)))", vec![ia], Some("unknown-function")),
+            ("sort_by(one, &abs(aa(id)))", vec![ia], Some("type")),
         ] {
             rep.evaluations += 1;
             LOG.with(|l| l.borrow_mut().clear());
@@ -585,7 +604,7 @@ fn no_element_no_call(rep: &mut Report, next_id: &mut u64) {
             let ok = ids == want_ids
                 && match (&got, want_err) {
                     (Ok(Ok(_)), None) => true,
-                    (Ok(Err(e)), Some(c)) => err_class(e) == c && e.reason.to_string().ends_with(" nosuch"),
+                    (Ok(Err(e)), Some(c)) => err_class(e) == c && (c != "unknown-function" || e.reason.to_string().ends_with(" nosuch")),
                     _ => false,
                 };
             if ok {
